@@ -107,6 +107,8 @@ def run(ck):
     if not ck.quick:
         scen.append(("pkg/uc7_config_tap003.yaml", {"kind": "file", "path": world.PKG + "/uc7_config_tap003.yaml"}, 40, UC7_NODES))
         pass    # data_manipulation_marl.yaml has two learning agents: not a PrimaiteGymEnv scenario
+    # the attacker that keeps re-scanning after exhausting its network list (idle defender so that it gets there)
+    scen.append(("pkg/uc7_config.yaml + attacker rescanning", {"kind": "file", "path": world.PKG + "/uc7_config.yaml"}, ck.n(45, 70), "rescan"))
     variants = [("hash0", 0, False), ("hash1", 1, False), ("hash12345", 12345, True), ("hash0", 0, True)]
     if not ck.quick:
         variants += [("hashrandom", "random", False), ("hash777", 777, True)]
@@ -114,7 +116,12 @@ def run(ck):
     for name, sc, steps, taps in scen:
         for gs in ([3, 0] if ck.quick else [3, 11, 0]):         # 0: a legal seed that is falsy in Python
             spec = {"scenario": sc, "game_seed": gs, "reset_seed": (gs + 100) if gs else 0, "action_seed": 5, "steps": steps, "episodes": 2, "max_episode_length": steps + 5}
-            if taps:
+            if taps == "rescan":
+                spec["tap_rescan"] = True
+                spec["idle"] = True
+                if gs != 3:
+                    continue
+            elif taps:
                 spec["tap_starting_nodes"] = taps
             for vname, hs, logging in variants:
                 jobs.append((name, gs, dict(spec, logging=logging), hs, "%s/%s" % (vname, "logs-on" if logging else "logs-off")))
